@@ -119,7 +119,10 @@ def _apply_elem_wise_func(inputs: tuple[ArrayOrScalarT, ...],
                 raise NotImplementedError("broadcasting in function application")
 
             if ret_dtype is None:
-                ret_dtype = inp.dtype
+                # (of all array arguments: arctan2(float32, float64))
+                ret_dtype = np.result_type(*[
+                    other.dtype for other in inputs
+                    if isinstance(other, Array)])
 
             bindings[f"in_{index}"] = inp
             sym_args.append(
